@@ -8,13 +8,15 @@
 (*   Scan     do the secrets occur in clear in any byte written / in an error text                   *)
 (*   Cipher   one ciphertext of the encrypted reply, decrypted with the peer's private key           *)
 (*   ReplyEnd end of the encrypted reply                                                             *)
-(* JUDGE selects the property: C08 judges Result, C09 judges LoginRec / Scan / Cipher / ReplyEnd.     *)
+(* JUDGE selects the property: C08 judges Result, C09 judges LoginRec / Scan / Cipher / ReplyEnd,     *)
+(* C10 only that the login does not panic.                                                             *)
 EXTENDS TraceBase, LoginSpec
 VARIABLES l, flow, script, nrem, outcome, ciphers
 vars == <<l, flow, script, nrem, outcome, ciphers>>
 Judge == IF "JUDGE" \in DOMAIN IOEnv THEN IOEnv.JUDGE ELSE "ALL"
 J08 == Judge \in {"C08", "ALL"}
 J09 == Judge \in {"C09", "ALL"}
+J10 == Judge \in {"C10", "ALL"}
 E == Trace[l]
 IsEvent(e) == l <= Len(Trace) /\ Trace[l].ev = e /\ l' = l + 1
 Init == l = 1 /\ flow = "none" /\ script = <<>> /\ nrem = 0 /\ outcome = "none" /\ ciphers = <<>> /\ HWInit
@@ -30,6 +32,7 @@ T_Result ==
                  /\ (v = "F" => E.outcome = "error")                      \* every other reply sequence is an error
               /\ (E.outcome = "success" /\ flow = "enc") => E.capsok      \* the capability set the server returned
               /\ (E.outcome = "success" /\ HasPacksize(flow, script) /\ Verdict(flow, script) = "S") => E.ps = E.announced
+    /\ J10 => E.outcome # "panic"                                         \* C10: no server reply crashes the login
     /\ outcome' = E.outcome
     /\ UNCHANGED <<flow, script, nrem, ciphers>>
 
